@@ -233,6 +233,69 @@ text_harness!(fq_text_id, |h| seq_io::fastq::OwnedRecord { head: h, seq: Vec::ne
 text_harness!(fq_text_desc, |h| seq_io::fastq::OwnedRecord { head: h, seq: Vec::new(), qual: Vec::new() }, seq_io::fastq::Record, 1);
 text_harness!(fq_text_both, |h| seq_io::fastq::OwnedRecord { head: h, seq: Vec::new(), qual: Vec::new() }, seq_io::fastq::Record, 2);
 
+fn seq2(a: u8, b: u8) -> bool {
+    a >= 0xc2 && a <= 0xdf && b >= 0x80 && b <= 0xbf
+}
+
+/// UTF-8 validity of a string of at most three bytes, written out (validated exhaustively against
+/// core::str::from_utf8 over all 2^24 + 2^16 + 2^8 + 1 strings by a one-off native program, DESIGN §14.3)
+pub fn utf8_ok3(b: &[u8]) -> bool {
+    if b.len() <= 2 {
+        return utf8_ok(b);
+    }
+    let (x, y, z) = (b[0], b[1], b[2]);
+    let cont = |c: u8| c >= 0x80 && c <= 0xbf;
+    let s3 = cont(z)
+        && ((x == 0xe0 && y >= 0xa0 && y <= 0xbf)
+            || (((x >= 0xe1 && x <= 0xec) || x == 0xee || x == 0xef) && cont(y))
+            || (x == 0xed && y >= 0x80 && y <= 0x9f));
+    (x < 0x80 && ((y < 0x80 && z < 0x80) || seq2(y, z))) || (seq2(x, y) && z < 0x80) || s3
+}
+
+/// as `stub_from_utf8`, for strings of at most three bytes
+pub fn stub_from_utf8_3(v: &[u8]) -> Result<&str, std::str::Utf8Error> {
+    if v.len() <= 3 && utf8_ok3(v) {
+        Ok(unsafe { std::str::from_utf8_unchecked(v) })
+    } else {
+        Err(unsafe { std::mem::zeroed() })
+    }
+}
+
+fn eq3(a: &[u8], b: &[u8]) -> bool {
+    a.len() == b.len() && (a.len() < 1 || a[0] == b[0]) && (a.len() < 2 || a[1] == b[1]) && (a.len() < 3 || a[2] == b[2])
+}
+
+/// id_desc() on headers of exactly three bytes: the smallest size at which id and description can
+/// both be non-empty ("a b") and at which 3-byte UTF-8 sequences occur
+macro_rules! text_both3 {
+    ($name:ident, $rec:expr, $tr:path) => {
+        pub fn $name<N: Nd>(nd: &mut N) {
+            use $tr;
+            let h = [nd.u8(), nd.u8(), nd.u8()];
+            nd.assume(h[0] != LF && h[1] != LF && h[2] != LF);
+            nd.note("head", &h[..]);
+            let o = $rec(h.to_vec());
+            let idb = o.id_bytes();
+            let db = o.desc_bytes();
+            let both = o.id_desc();
+            vassert!(both.is_ok() == utf8_ok3(&h[..]), "C13 id_desc() succeeds exactly when the header is valid UTF-8");
+            if let Ok((i, dd)) = both {
+                vassert!(eq3(i.as_bytes(), idb), "C13 id_desc() returns the id bytes");
+                vassert!(dd.is_some() == db.is_some(), "C13 id_desc() description presence");
+                if let (Some(x), Some(y)) = (dd, db) {
+                    vassert!(eq3(x.as_bytes(), y), "C13 id_desc() returns the description bytes");
+                }
+            }
+            cover!(h[1] == b' ' && h[0] != b' ' && h[2] != b' ' && both.is_ok(), "id and description both non-empty");
+            cover!(h[0] >= 0xe0 && both.is_ok(), "three-byte UTF-8 sequence");
+            cover!(both.is_err(), "a header that is not valid UTF-8");
+            std::mem::forget(o);
+        }
+    };
+}
+text_both3!(fa_text_both3, |h| seq_io::fasta::OwnedRecord { head: h, seq: Vec::new() }, seq_io::fasta::Record);
+text_both3!(fq_text_both3, |h| seq_io::fastq::OwnedRecord { head: h, seq: Vec::new(), qual: Vec::new() }, seq_io::fastq::Record);
+
 pub fn fq_views<N: Nd>(nd: &mut N) {
     use seq_io::fastq::Record;
     let parts = any_fq_record(nd, true);
@@ -290,6 +353,14 @@ harnesses! {
     #[kani::stub(std::str::from_utf8, crate::c13::stub_from_utf8)]
     #[kani::stub(core::slice::memchr::memchr, crate::c13::stub_core_memchr)]
     c13_fa_text_both => fa_text_both;
+    /// @meta props=C13 tier=quick kind=R timeout=900 mem=12 unwind=6 bounds="FASTQ id_desc() on every header of exactly 3 arbitrary bytes (id and description both non-empty, 3-byte UTF-8 sequences, invalid bytes); core::str::from_utf8 stubbed by an explicit 3-byte validator and core's internal memchr by a byte loop"
+    #[kani::stub(std::str::from_utf8, crate::c13::stub_from_utf8_3)]
+    #[kani::stub(core::slice::memchr::memchr, crate::c13::stub_core_memchr)]
+    c13_fq_text_both3 => fq_text_both3;
+    /// @meta props=C13 tier=quick kind=R timeout=900 mem=12 unwind=6 bounds="FASTA id_desc() on every header of exactly 3 arbitrary bytes (id and description both non-empty, 3-byte UTF-8 sequences, invalid bytes); core::str::from_utf8 stubbed by an explicit 3-byte validator and core's internal memchr by a byte loop"
+    #[kani::stub(std::str::from_utf8, crate::c13::stub_from_utf8_3)]
+    #[kani::stub(core::slice::memchr::memchr, crate::c13::stub_core_memchr)]
+    c13_fa_text_both3 => fa_text_both3;
     /// @meta props=C13 tier=quick kind=R timeout=1500 mem=12 unwind=12 bounds="FASTQ record from parts under the record invariant: buffer <= 10 symbolic bytes, valid record; RefRecord, OwnedRecord"
     c13_fq_views => fq_views;
 }
